@@ -218,6 +218,8 @@ func (pc *PacketConn) ReadFrom(p []byte) (n int, addr net.Addr, err error) {
 		case m = <-pc.recvChan:
 		case <-time.After(time.Until(pc.GetReadDeadline())):
 			return 0, nil, ErrTimeout
+		case <-pc.context.Done():
+			return 0, nil, fmt.Errorf("connection context closed")
 		}
 	}
 	if m == nil {
